@@ -106,6 +106,16 @@ func New(dir, domain string) (*World, error) {
 	return w, nil
 }
 
+// Reopen gives a second, independent view of the same data directory: its own database manager, IMAP server and storage, as
+// a restarted (or a second) service process has them. The authentication backend and configuration are shared.
+func (w *World) Reopen() (*World, error) {
+	mgr, err := db.NewDBManager(w.Dir + "/data")
+	if err != nil {
+		return nil, err
+	}
+	return &World{Dir: w.Dir, Mgr: mgr, Srv: server.NewIMAPServer(mgr), Stor: storage.NewStorage(mgr), LCfg: w.LCfg, Backend: w.Backend}, nil
+}
+
 func (w *World) Close() {
 	w.Backend.Srv.Close()
 	w.Mgr.Close()
